@@ -3,7 +3,7 @@ import EmbitModel.Model.ReadVout
 /-
   Model of embit `psbt.py`: key-value layer, DerivationPath, InputScope / OutputScope / PSBT
   (`read_value`, `write_to`, `read_from`, `parse_unknowns`, `vin` / `vout` / `tx` reconstruction, `verify`,
-  `utxo`, `fee`). Follows the code after the C04/C06 `fix:` commits. Dict-valued fields are association
+  `utxo`, `fee`). Follows the code after the C04/C06 `fix:` commits and `fixes/fix-compress-dup-utxo.diff`. Dict-valued fields are association
   lists in insertion order (CPython dict order). Public-key validity is abstract (`KeyOps`).
 -/
 namespace Embit.Model
@@ -124,6 +124,7 @@ def InScope.addPair (ko : KeyOps) (sha : Bytes → Bytes) (compress : Nat) (s : 
     if k0 = 0x00 then
       if !single then none
       else if s.nonWitnessUtxo.isSome then none
+      else if s.txhash.isSome then none      -- memory-saving modes keep only `_txhash` / `_utxo` of the first one
       else if compress ≠ 0 && s.txid.isSome && s.vout.isSome then
         match readVoutAll sha v (s.vout.getD 0) with
         | none => none
